@@ -173,6 +173,13 @@ def run_shard(desc, tier):
                                 f"{iface} headers init {dict(init)} history {h2}: step {i} {kind}: implementation {a!r:.200} vs reference {b!r:.200}")
                     yield op, None
                 else:
+                    # states are merged on the public mapping; what is emitted is checked on every transition all the same, so
+                    # that something kept outside the mapping (e.g. by a refused store) cannot hide behind the merge
+                    res = emit(iface, resp)
+                    r.count("emissions")
+                    if not (any(ord(c) > 0xFF for v in d.values() for c in v) and (isinstance(res.exc, UnicodeEncodeError) or any("Latin-1" in x for x in res.problems))):
+                        for p in line_problems(res):
+                            r.violation("headers:emitted-line", {"kind": "headers", "iface": iface, "init": list(init), "history": [list(o) for o in h2]}, f"{iface} after {h2}: {p}")
                     yield op, h2
 
         def canon(hist):
@@ -291,6 +298,24 @@ def header_strings(r, iface, tier):
                     res = emit(iface, resp)
                     for pr in line_problems(res):  # CR, LF, NUL only: a TAB is legal in a field value as far as this property goes
                         r.violation("headers:emitted-line", w, f"{iface} after {pname}({s_!r}): {pr}")
+    # names the library itself writes (and might therefore trust): the same strings under these names
+    for special in ("content-length", "content-range", "content-type", "content-disposition", "location", "set-cookie", "etag", "last-modified", "Content-Length", "CONTENT-RANGE"):
+        for s_ in [x for x in strings if len(x) <= 2 and bad(x)] + ["12\r\nx: y", "bytes 0-1/2\n", "\0"]:
+            for pname, fn in paths.items():
+                if pname == "append-existing":
+                    continue
+                resp = fresh(iface, (("x-old", "1"),))
+                r.count("evaluations")
+                r.count("distinct_nontrivial")
+                w = {"kind": "hdrstring", "iface": iface, "path": pname, "string": s_, "as_name": False, "name": special}
+                try:
+                    fn(resp.headers, special, s_)
+                    r.violation(f"headers:hostile-string-accepted:{pname}", w, f"{iface} headers {pname} accepted value {s_!r} under the name {special!r} without ValueError")
+                except ValueError:
+                    pass
+                res = emit(iface, resp)
+                for pr in line_problems(res):
+                    r.violation("headers:emitted-line", w, f"{iface} after {pname}({special!r}, {s_!r}): {pr}")
     r.sample({"iface": iface, "header_string": "a\r\n b", "paths": list(paths)})
 
 
